@@ -59,6 +59,7 @@ def run(rep: core.Report):
     rep.rule("R17c", "per-atom sequences paired in a structure writer are in the same atom order (original vs grouped-by-species)", 16)
     rep.rule("R17e", "create_FORCE_SETS compares the displacements found in calculator output with the dataset before forces are paired", 2)
     rep.rule("R17f", "the structure-info tuple a reader returns has the shape every consumer of that calculator unpacks or indexes", 20)
+    rep.rule("R17g", "output rows keyed by an explicit atom id are stored at the row of that id (scatter out[id-1] = row, or gather through argsort), never gathered through the ids themselves, and an incomplete set of ids is refused", 3)
     reg = registry()
     if len(reg) < 16:
         raise AnalysisError(f"calculator registry has {len(reg)} entries, 16 confirmed by reading")
@@ -67,6 +68,7 @@ def run(rep: core.Report):
     _r17c(rep)
     _r17e(rep)
     _r17f(rep, reg)
+    _r17g(rep)
 
 
 # ---------------------------------------------------------------------------
@@ -492,6 +494,121 @@ def _r17f(rep, reg):
                                      f"unpacking {m} names from the {n}-tuple (filename, …) that read_crystal_structure returns for {calc}: ValueError at run time", line=x.lineno)
 
 
+def _r17g(rep):
+    """Index-domain typing of LammpsForcesLoader._parse: F = file-row order, I = atom-id order."""
+    rel = "phonopy/interface/lammps.py"
+    fn = core.find_def(rel, "LammpsForcesLoader._parse")
+    loops = []
+    for lp in [n for n in ast.walk(fn) if isinstance(n, ast.For)]:
+        tnames = {x.id for x in ast.walk(lp.target) if isinstance(x, ast.Name)}
+        splits = [s for s in lp.body if isinstance(s, ast.Assign) and isinstance(s.value, ast.Call) and core.src(s.value.func).split(".")[-1] == "split" and {x.id for x in ast.walk(s.value) if isinstance(x, ast.Name)} & tnames]
+        stores = [s for s in ast.walk(lp) if isinstance(s, ast.Assign) and isinstance(s.targets[0], ast.Subscript)]
+        if splits and stores:
+            loops.append((lp, splits[0].targets[0].id))
+    if not loops:
+        raise AnalysisError("R17g: the row loop of LammpsForcesLoader._parse vanished")
+    lp, row = loops[-1]
+    idx_names = set()
+    if isinstance(lp.iter, ast.Call) and core.src(lp.iter.func) == "enumerate" and isinstance(lp.target, ast.Tuple) and isinstance(lp.target.elts[0], ast.Name):
+        idx_names.add(lp.target.elts[0].id)
+    for s in ast.walk(lp):
+        if isinstance(s, ast.AugAssign) and isinstance(s.target, ast.Name) and isinstance(s.op, ast.Add):
+            idx_names.add(s.target.id)
+
+    def from_row0(e):
+        return isinstance(e, ast.Call) and core.src(e.func) == "int" and e.args and core.src(e.args[0]) == f"{row}[0]"
+
+    id_scalars = {s.targets[0].id for s in ast.walk(lp) if isinstance(s, ast.Assign) and isinstance(s.targets[0], ast.Name) and from_row0(s.value)}
+    id_arrays = set()
+    dom = {}
+    where = {}
+
+    def names(e):
+        return {x.id for x in ast.walk(e) if isinstance(x, ast.Name)}
+
+    def idx_class(e):
+        ns = names(e)
+        if isinstance(e, ast.Call) and (core.src(e.func) == "np.argsort" or core.src(e.func).endswith(".argsort")) and ns & id_arrays:
+            return "argsort"
+        if ns & id_scalars:
+            return "I"
+        if ns & id_arrays:
+            return "Ivec"
+        if ns & idx_names:
+            return "F"
+        return None
+
+    for s in [x for x in ast.walk(lp) if isinstance(x, ast.Assign) and isinstance(x.targets[0], ast.Subscript)]:
+        t = s.targets[0]
+        k = core.src(t.value)
+        c = idx_class(t.slice)
+        if from_row0(s.value) and c == "F":
+            id_arrays.add(k)
+            continue
+        if c in ("I", "F"):
+            if row in names(s.value):
+                dom[k] = c
+                where[k] = s
+            elif c == "I":
+                dom.setdefault(k, "Iflag")
+    for s in ast.walk(lp):
+        if isinstance(s, ast.Expr) and isinstance(s.value, ast.Call) and isinstance(s.value.func, ast.Attribute) and s.value.func.attr == "append" and s.value.args:
+            k = core.src(s.value.func.value)
+            if from_row0(s.value.args[0]):
+                id_arrays.add(k)
+            elif row in names(s.value.args[0]):
+                dom[k] = "F"
+    if not id_scalars and not id_arrays:
+        rep.instance("R17g", rel, "LammpsForcesLoader._parse", "each dump row's atom id is read", False, "the atom id of a dump row is no longer read: rows of an unsorted dump are assigned to the wrong atoms", line=lp.lineno)
+        return
+    findings = []
+
+    def val_dom(e):
+        if isinstance(e, (ast.Name, ast.Attribute)):
+            return dom.get(core.src(e))
+        if isinstance(e, ast.Call) and core.src(e.func) in ("np.array", "np.asarray", "np.ascontiguousarray") and e.args:
+            return val_dom(e.args[0])
+        if isinstance(e, ast.Subscript):
+            d = val_dom(e.value)
+            c = idx_class(e.slice)
+            if isinstance(e.slice, ast.Slice):
+                return d
+            if d == "F" and c == "Ivec":
+                findings.append((e, f"'{core.src(e)}' gathers the file-ordered rows through the atom ids: row k of the result is the row of the atom whose id stands on file line (id_k), the inverse of the permutation needed"))
+                return "bad"
+            if d == "F" and c == "argsort":
+                return "I"
+            return None
+        return None
+
+    after = [s for s in fn.body if s.lineno > lp.end_lineno]
+    refusal = False
+    for s in after:
+        for a in [x for x in ast.walk(s) if isinstance(x, (ast.Assert, ast.Raise, ast.If))]:
+            t = a.test if isinstance(a, (ast.Assert, ast.If)) else a
+            if isinstance(a, ast.If) and not any(isinstance(x, ast.Raise) for x in ast.walk(a)):
+                continue
+            if names(t) & (id_arrays | {k for k, v in dom.items() if v == "Iflag"}):
+                refusal = True
+        if isinstance(s, ast.Assign):
+            t = s.targets[0]
+            if isinstance(t, ast.Subscript):
+                c = idx_class(t.slice)
+                if c == "Ivec" and val_dom(s.value) == "F":
+                    dom[core.src(t.value)] = "I"
+            else:
+                d = val_dom(s.value)
+                if d:
+                    dom[core.src(t)] = d
+    res = dom.get("self._forces")
+    for node, msg in findings:
+        rep.instance("R17g", rel, "LammpsForcesLoader._parse", core.norm(core.src(node), 60), False, msg + ": forces of a dump that is not sorted by id land on the wrong atoms", line=node.lineno)
+    rep.instance("R17g", rel, "LammpsForcesLoader._parse", f"self._forces is in atom-id order (ids: {sorted(id_scalars | id_arrays)})", res == "I" or (res == "bad"),
+                 "the forces are kept in file order although every row names its atom id: rows of an unsorted dump are assigned to the wrong atoms", line=lp.lineno) if res in ("I", "F", "bad") else rep.unknown("R17g: order domain of self._forces not determined")
+    rep.instance("R17g", rel, "LammpsForcesLoader._parse", "an incomplete or repeated set of atom ids is refused", refusal, "nothing checks that every atom id was seen exactly once: a truncated or duplicated dump silently yields zero forces for some atoms", line=lp.end_lineno)
+    rep.instance("R17g", rel, "LammpsForcesLoader._parse", f"{len(findings)} inverse-permutation gathers", not findings, "see above", line=lp.lineno, nontrivial=False) if not findings else None
+
+
 def selftest():
     V = []
     b = lambda name, file, old, new, rule, expect="", **kw: V.append(dict(name=name, kind="break", file=file, old=old, new=new, rule=rule, expect=expect, **kw))
@@ -504,6 +621,12 @@ def selftest():
     b("pwmat branch dropped from cell filename", CALC, '    elif interface_mode == "pwmat":\n        return "atom.config"', '    elif interface_mode == "pwmat_":\n        return "atom.config"', "R17a", "pwmat")
     b("writer called with a missing argument", CALC, "qe.write_pwscf(filename, cell, pp_filenames)", "qe.write_pwscf(filename, cell)", "R17a", "write_pwscf")
     b("elk writer pairs sorted positions with original symbols", "phonopy/interface/elk.py", "        spfnames = [s + \".in\" for s in symbols]", "        spfnames = [s + \".in\" for s in symbols]\n    for i in range(len(scaled_positions)):\n        _ = (cell.symbols[i], scaled_positions[i])", "R17c", "get_elk_structure")
+    LMP = "phonopy/interface/lammps.py"
+    b("lammps forces kept in file order", LMP, "            forces[atom_id - 1] = np.array(ary[column_start:column_end], dtype=\"double\")", "            forces[i] = np.array(ary[column_start:column_end], dtype=\"double\")", "R17g", "atom-id order")
+    b("lammps id completeness check dropped", LMP, "        assert all(indices_found)\n", "", "R17g", "refused")
+    n("lammps forces scattered after the loop", LMP, '        forces = np.zeros((num_atoms, 3), dtype="double")\n        indices_found = [False] * num_atoms\n        for i, line in enumerate(fp):\n            if i == num_atoms:\n                break\n            ary = line.split()\n            atom_id = int(ary[0])\n            indices_found[atom_id - 1] = True\n            forces[atom_id - 1] = np.array(ary[column_start:column_end], dtype="double")\n\n        assert all(indices_found)\n        self._forces = forces\n', '        ids = np.zeros(num_atoms, dtype="int64")\n        rows = np.zeros((num_atoms, 3), dtype="double")\n        for i, line in enumerate(fp):\n            if i == num_atoms:\n                break\n            ary = line.split()\n            ids[i] = int(ary[0])\n            rows[i] = [float(v) for v in ary[column_start:column_end]]\n        assert (np.sort(ids) == np.arange(1, num_atoms + 1)).all()\n        forces = np.zeros_like(rows)\n        forces[ids - 1] = rows\n        self._forces = forces\n')
+    n("lammps forces gathered through argsort", LMP, '        forces = np.zeros((num_atoms, 3), dtype="double")\n        indices_found = [False] * num_atoms\n        for i, line in enumerate(fp):\n            if i == num_atoms:\n                break\n            ary = line.split()\n            atom_id = int(ary[0])\n            indices_found[atom_id - 1] = True\n            forces[atom_id - 1] = np.array(ary[column_start:column_end], dtype="double")\n\n        assert all(indices_found)\n        self._forces = forces\n', '        ids = np.zeros(num_atoms, dtype="int64")\n        rows = np.zeros((num_atoms, 3), dtype="double")\n        for i, line in enumerate(fp):\n            if i == num_atoms:\n                break\n            ary = line.split()\n            ids[i] = int(ary[0])\n            rows[i] = [float(v) for v in ary[column_start:column_end]]\n        assert (np.sort(ids) == np.arange(1, num_atoms + 1)).all()\n        self._forces = np.array(rows[np.argsort(ids)], dtype="double", order="C")\n')
+    b("lammps forces gathered through the ids", LMP, '        forces = np.zeros((num_atoms, 3), dtype="double")\n        indices_found = [False] * num_atoms\n        for i, line in enumerate(fp):\n            if i == num_atoms:\n                break\n            ary = line.split()\n            atom_id = int(ary[0])\n            indices_found[atom_id - 1] = True\n            forces[atom_id - 1] = np.array(ary[column_start:column_end], dtype="double")\n\n        assert all(indices_found)\n        self._forces = forces\n', '        ids = np.zeros(num_atoms, dtype="int64")\n        rows = np.zeros((num_atoms, 3), dtype="double")\n        for i, line in enumerate(fp):\n            if i == num_atoms:\n                break\n            ary = line.split()\n            ids[i] = int(ary[0])\n            rows[i] = [float(v) for v in ary[column_start:column_end]]\n        assert (np.sort(ids) == np.arange(1, num_atoms + 1)).all()\n        self._forces = np.array(rows[ids - 1], dtype="double", order="C")\n', "R17g", "rows[ids - 1]")
     b("fleur unpack regression", CALC, "        speci = optional_structure_info[1]\n        restlines = optional_structure_info[2]\n        fleur.write_fleur(filename, cell, speci, 1, restlines)", "        speci, restlines = optional_structure_info\n        fleur.write_fleur(filename, cell, speci, 1, restlines)", "R17f", "fleur")
     n("constant through a local alias", CALC, 'units["factor"] = PwscfToTHz', 'units["factor"] = PwscfToTHz * 1.0')
     return V
